@@ -174,7 +174,7 @@ def pop_case(draw):
         c = {"s": s, "t": t, "W": W, "d": None, "sp": None, "coupling": None}
         dm = draw(st.integers(0, 5))
         if dm == 0:
-            c["d"] = draw(st.sampled_from([0.03, 0.05, 0.023]))
+            c["d"] = draw(st.sampled_from([0.03, 0.05, 0.023, 0.017, 0.017]))
         elif dm == 1:
             c["d"] = draw(st.sampled_from([0.1, 0.2]))
             c["sp"] = round(c["d"] / float(np.sqrt(draw(st.sampled_from([1, 2, 3])))), 6)
